@@ -25,6 +25,15 @@ func init() {
 func H_C15_comma() {
 	a := nondetString("a", vparam("PART"))
 	b := nondetString("b", vparam("PART"))
+	if nondetChoice("exactly-one-comma", 2) == 1 {
+		// the case of exactly one comma separately: it stays decidable for code that splits the joined value again
+		for i := 0; i < len(a); i++ {
+			vassume(a[i] != ',')
+		}
+		for i := 0; i < len(b); i++ {
+			vassume(b[i] != ',')
+		}
+	}
 	d := a + "," + b
 	ann := map[string]string{"foreign.io/key": "x"}
 	tok := vfreeze(ann)
